@@ -401,4 +401,34 @@ def buildLUT2 (W : Nat) (bs : List Str) (rc : Int) : Option Tables :=
 def buildLUT (depth W : Nat) (bs : List Str) (rc : Int) : Option Tables :=
   if depth = 1 then buildLUT1 W bs rc else if depth = 2 then buildLUT2 W bs rc else none
 
+/-! ### the output type `out_class`
+
+`getNoise` computes in `int64_t output` and stores `(out_class) output`; the table cells hold `out_class val` (written from the
+`int64_t val` of `buildLookupTables`, read back by `output = cell.val`).  The decoder above works with the mathematical
+integers; these definitions say how they appear in (and are recovered from) an `out_class` object of `b` bits. -/
+
+/-- the integer denoted by the `b`-bit pattern `x` (`0 ≤ x < 2^b`) read as a two's complement number -/
+def toSignedBits (b : Nat) (x : Int) : Int := if x < 2 ^ (b - 1) then x else x - 2 ^ b
+
+/-- `(out_class) x`: the value of the resulting object (`[0, 2^b)` for an unsigned type, `[-2^(b-1), 2^(b-1))` for a signed one);
+with `b = 64`, `sg = true` it is also the conversion to / wrap-around of `int64_t` -/
+def outStore (b : Nat) (sg : Bool) (x : Int) : Int :=
+  if sg then toSignedBits b (x % 2 ^ b) else x % 2 ^ b
+
+/-- the integer an `out_class` value denotes when the object is read as the *signed* type of the same width
+(`signed_value_type rnd[degree]; getNoise((value_type*)rnd, degree)` in `poly::set(gaussian)`) -/
+def readOut (b : Nat) (y : Int) : Int := toSignedBits b (y % 2 ^ b)
+
+/-- a flagged cell as executed: the cell holds `(out_class) val`; `int64_t output = cell.val;` then `k` times `output++`
+(64-bit), then `(out_class) output` -/
+def outPath (b : Nat) (sg : Bool) (val : Int) (k : Nat) : Int :=
+  outStore b sg (outStore 64 true (outStore 64 true (outStore b sg val) + k))
+
+/-- every value of `[lo, hi]` is representable in the signed `b`-bit type -/
+def fitsOut (b : Nat) (lo hi : Int) : Bool := decide (-(2 ^ (b - 1) : Int) ≤ lo) && decide (hi < (2 ^ (b - 1) : Int))
+
+/-- is `y` a value of the `b`-bit type of signedness `sg` -/
+def inOutRange (b : Nat) (sg : Bool) (y : Int) : Bool :=
+  if sg then decide (-(2 ^ (b - 1) : Int) ≤ y) && decide (y < (2 ^ (b - 1) : Int)) else decide (0 ≤ y) && decide (y < (2 ^ b : Int))
+
 end Nfl.Gauss
